@@ -696,8 +696,22 @@ func checkC11(c *Ctx) {
 	c.R.Min("R-replace-atomic", 1)
 	c.R.Min("R-remove-self-only", 1)
 	c.R.Min("R-foreign-delete", 1)
-	c.R.Min("R-register-first", 1)
+	nFirst := 0
+	for _, o := range c.R.Obls {
+		if o.Rule == "R-register-first" {
+			nFirst++
+		}
+	}
+	if nFirst == 0 {
+		// (the insert sites themselves are counted by R-replace-atomic / R-remove-self-only above)
+		c.R.Hold("R-register-first", "the registering handler sends nothing to the session through the table", "", "no send found on either side of the registration")
+	}
 	c11SlotOwner(c)
+	// "notifications sent afterwards arrive on the newer stream": whatever is written to a stream record's writer is
+	// written under that record's write lock, and every acquisition of it is released on every path
+	streamWriteLocked(c, "R-stream-locked", true)
+	c.R.Min("R-stream-locked", 2)
+	lockBalancedServer(c, "R-lock-balanced")
 	// re-opening the client's listening stream must complete: nothing waits for the old stream's goroutine while
 	// holding the mutex that goroutine needs on its way out
 	{
